@@ -56,7 +56,7 @@ def profile(**kw):
     p = dict(max_kernels=3, max_temps=3, temp_shapes=['r1', 'r1', 'r2', 'r2', 'r2c', 'r2z'], temp_types=['real', 'real', 'real', 'int', 'log'],
              max_blocks=5, vecnotation=True, fullrange=False, carry=True, downward=True, second_module=True, alias=True,
              driver_loops=True, out_args=True, n_inputs=2, call_in_vloop=True, two_block_loops=True, int_fields=True,
-             edge_uniform='mixed', driver_bounds_in_section=True)
+             edge_uniform='mixed', driver_bounds_in_section=True, uniform_reassign=True)
     p.update(kw)
     return p
 
@@ -286,8 +286,11 @@ class KGen:
             pre = []
             if g.chance(25):
                 # uniform statement between the loop headers
-                pre = [['assign', 'zc', lit(g)]]
-                self.feat.add('uniform-stmt-in-vloop')
+                if self.p['uniform_reassign']:
+                    pre = [['assign', 'zc', lit(g)]]
+                    self.feat.add('uniform-stmt-in-vloop')
+                else:
+                    self.feat.add('avoided:uniform_scalar_reassigned')
             inner = self.hstmts(ctx, g.i(1, 3), must_write)
             if any('- 1' in str(s) or '+ 1' in str(s) for s in inner):
                 self.feat.add('vertical-recurrence')
@@ -502,6 +505,8 @@ class KGen:
             elif self.callees and (k == 5 or (calls_wanted and b == nblocks - 1)):
                 if self.add_call():
                     calls_wanted = 0
+            elif k == 6 and not p['uniform_reassign']:
+                self.feat.add('avoided:uniform_scalar_reassigned')
             elif k == 6:
                 self.body.append(['assign', 'zc', lit(g)])
                 self.feat.add('uniform-scalar-reassigned')
@@ -652,6 +657,21 @@ def driver_bounds_in_section(m):
     """True if the horizontal bounds are assigned inside a block loop and a driver-level horizontal loop follows before the first call"""
     d = m['driver']
     return bool(d['bounds_in_loop']) and any(_vector_block_before_call(lp, m['ns']['jl']) for lp in d['loops'])
+
+
+def uniform_scalar_reassigned(m):
+    """True if some kernel assigns its uniform scalar zc more than once"""
+    def count(blocks):
+        n = 0
+        for s in blocks:
+            if s[0] == 'assign' and s[1] == 'zc':
+                n += 1
+            elif s[0] == 'do':
+                n += count(s[5])
+            elif s[0] == 'if':
+                n += count(s[2]) + count(s[3])
+        return n
+    return any(count(k['body']) > 1 for k in m['kernels'])
 
 
 def rawstack_kind_only_in_callee(m):
